@@ -19,7 +19,8 @@ def RCOut.fmt : RCOut → String
   | .panic => "panic"
 
 /-- suite `rc`: one output line `model<TAB>spec` per op line -/
-def suiteRC (kvs : List (String × String)) (lines : List String) : List String :=
+def suiteRC (kvs : List (String × String)) (lines0 : List (String × String)) : List String :=
+  let lines := lines0.map (·.1)
   let n := kvNat kvs "n" 1
   let w := kvInt kvs "w" 1
   match lines.mapM parseRCOp with
@@ -27,6 +28,7 @@ def suiteRC (kvs : List (String × String)) (lines : List String) : List String 
   | some ops =>
     let m := (RC.new n w).run ops
     let s := SpecC13.run n w ops
-    (m.zip s).map fun (a, b) => a.fmt ++ "\t" ++ b.fmt
+    -- the property speaks about positive bucket counts and widths only: no spec opinion outside
+    (m.zip s).map fun (a, b) => a.fmt ++ "\t" ++ (if n = 0 ∨ w ≤ 0 then "-" else b.fmt)
 
 end CM
